@@ -481,6 +481,24 @@ func (x *batchExec) postCb(ctx context.Context, s *flyt.SharedStore, items, resu
 	x.postInflight = append(x.postInflight, x.inflight)
 	x.postStarted = append(x.postStarted, x.started)
 	x.mu.Unlock()
+	if x.sc.PostErr == 12 || x.sc.PostErr == 13 {
+		// the idiomatic "fail the batch with the first item error": post's error IS (12) or wraps
+		// (13) one of this batch's own item errors
+		var err error
+		for _, r := range results {
+			if r.IsError() {
+				err = r.Error()
+				break
+			}
+		}
+		if err == nil {
+			err = mkErr(1, "batchpost-noitemerr")
+		} else if x.sc.PostErr == 13 {
+			err = fmt.Errorf("batch post: first item error: %w", err)
+		}
+		x.finish(seq, func(e *BEv) { e.RetErr = err })
+		return "", err
+	}
 	if x.sc.PostErr != 0 {
 		err := mkErr(x.sc.PostErr, "batchpost")
 		x.finish(seq, func(e *BEv) { e.RetErr = err })
